@@ -249,6 +249,12 @@ for m, o in zip(meta, outs):
 samples = [{"modes": m["geom"]["modes"], "inc": m["geom"]["inc"], "legs": m["geom"]["legs"],
             "rev_displacement_impl": m["impl"][("rev", "displacement")], "model": m["model"]["rev:displacement"]}
            for m in meta[:3]]
+# ---- the glue model of the public functions (Model files added later, see manifest text) tied to the library on every run:
+#      inputs generated here, the library run on them, the model evaluated on the same inputs by vm_compute inside coqc
+import ties.tie_C07 as _tie_glue  # noqa: E402
+_tie_n = _tie_glue.run(chk, arim, rng, Q)
+chk.cov["glue_model_tie_comparisons"] = int(_tie_n or 0)
+
 chk.finish(
     evaluations=len(meta) * 11,
     distinct_nontrivial=len(nontrivial),
